@@ -488,6 +488,71 @@ theorem wrr_exact (w : List Nat) (hw : w ≠ []) (hpos : 0 < total w) :
   · have h1 : r.1.length ≤ j := by rw [hgood.len]; omega
     rw [List.getElem?_eq_none h1, List.getElem?_eq_none (by simpa using (by omega : w.length ≤ j))]
 
+/-! ### drift after any number of picks -/
+
+theorem sum_ge (m : Int) : ∀ (l : List Int), (∀ x ∈ l, m ≤ x) → (l.length : Int) * m ≤ sumI l
+  | [], _ => by simp [sumI]
+  | x :: xs, h => by
+    have h1 := h x (List.mem_cons_self ..)
+    have h2 := sum_ge m xs (fun y hy => h y (List.mem_cons_of_mem _ hy))
+    simp only [sumI_cons, List.length_cons]
+    have : ((xs.length + 1 : Nat) : Int) * m = (xs.length : Int) * m + m := by
+      rw [Int.natCast_add, Int.add_mul]; simp
+    rw [this]; omega
+
+/-- the sum is at least one chosen element plus the lower bound for every other element -/
+theorem sum_ge_one (m : Int) : ∀ (l : List Int) (j : Nat) (hj : j < l.length), (∀ x ∈ l, m ≤ x) →
+    ((l.length : Int) - 1) * m + l[j] ≤ sumI l
+  | [], _, hj, _ => by simp at hj
+  | x :: xs, 0, _, h => by
+    have h2 := sum_ge m xs (fun y hy => h y (List.mem_cons_of_mem _ hy))
+    simp only [sumI_cons, List.length_cons, List.getElem_cons_zero]
+    have : ((xs.length + 1 : Nat) : Int) - 1 = (xs.length : Int) := by omega
+    rw [this]; omega
+  | x :: xs, j + 1, hj, h => by
+    have h1 := h x (List.mem_cons_self ..)
+    have ih := sum_ge_one m xs j (by simpa using hj) (fun y hy => h y (List.mem_cons_of_mem _ hy))
+    simp only [sumI_cons, List.length_cons, List.getElem_cons_succ]
+    have e : (((xs.length + 1 : Nat) : Int) - 1) * m = ((xs.length : Int) - 1) * m + m := by
+      have : ((xs.length + 1 : Nat) : Int) - 1 = ((xs.length : Int) - 1) + 1 := by omega
+      rw [this, Int.add_mul]; simp
+    rw [e]; omega
+
+/-- **Bounded drift.** From a fresh pool, after ANY number `k` of picks candidate j has been
+picked within a constant of its proportional share `k·w[j]/Σw` — the constant (less than 1 above,
+at most n−1 below, n = number of candidates) does not grow with `k`:
+`k·w[j] − (n−1)(Σw−1) ≤ Σw·count_j(k) < k·w[j] + Σw`. -/
+theorem wrr_drift (w : List Nat) (hw : w ≠ []) (hpos : 0 < total w) (k : Nat) (j : Nat) (hj : j < w.length) :
+    total w * ((count j (run w k (List.replicate w.length 0)).2 : Nat) : Int) < (k : Int) * getW w j + total w ∧
+    (k : Int) * getW w j ≤ total w * ((count j (run w k (List.replicate w.length 0)).2 : Nat) : Int)
+        + ((w.length : Int) - 1) * (total w - 1) := by
+  have hfresh : Good w (List.replicate w.length 0) := by
+    refine ⟨by simp, ?_, ?_⟩
+    · have : ∀ n, sumI (List.replicate n 0) = 0 := by
+        intro n; induction n with
+        | zero => rfl
+        | succ n ih => rw [List.replicate_succ, sumI_cons, ih]; rfl
+      exact this _
+    · intro c hc; rw [List.eq_of_mem_replicate hc]; omega
+  have acct := run_account w hw hpos k _ hfresh j
+  obtain ⟨h1, hgood, _, _⟩ := acct
+  have hz : getD0 (List.replicate w.length 0) j = 0 := by simp [getD0, hj]
+  rw [hz] at h1
+  generalize run w k (List.replicate w.length 0) = r at h1 hgood ⊢
+  have hjr : j < r.1.length := by rw [hgood.len]; exact hj
+  have hget : getD0 r.1 j = r.1[j] := by simp [getD0, List.getElem?_eq_getElem hjr]
+  have hlow : -(total w) < r.1[j] := hgood.lower _ (List.getElem_mem hjr)
+  have hup := sum_ge_one (1 - total w) r.1 j hjr (fun x hx => by have := hgood.lower x hx; omega)
+  rw [hgood.sum0, hgood.len] at hup
+  rw [hget] at h1
+  generalize total w * ((count j r.2 : Nat) : Int) = tc at *
+  generalize (k : Int) * getW w j = kw at *
+  have e : ((w.length : Int) - 1) * (1 - total w) = -(((w.length : Int) - 1) * (total w - 1)) := by
+    rw [show (1 - total w) = -(total w - 1) by omega, Int.mul_neg]
+  rw [e] at hup
+  generalize ((w.length : Int) - 1) * (total w - 1) = B at *
+  constructor <;> omega
+
 /-! ### every window, at any offset -/
 
 def fresh (w : List Nat) : List Int := List.replicate w.length 0
@@ -644,5 +709,232 @@ theorem core_refines (pool : List Backend) (now : Nat) (h : ∀ b ∈ pool, b.el
     obtain ⟨i, m⟩ := p
     simp only [true_and]
     rw [map_modify_cw, b1, htot]
+
+/-! ### pools with ineligible members: the strategy works on the eligible sub-list -/
+
+def elig (now : Nat) (l : List Backend) : List Backend := l.filter (·.eligible now)
+
+/-- number of eligible backends among the first `n` -/
+def rank (now : Nat) (l : List Backend) (n : Nat) : Nat := (elig now (l.take n)).length
+
+theorem eligible_cw (b : Backend) (c : Int) (now : Nat) : ({ b with cw := c } : Backend).eligible now = b.eligible now := rfl
+
+theorem elig_bump (pool : List Backend) (now : Nat) :
+    (elig now (wrrBump pool now)).map (·.cw) = bump ((elig now pool).map (·.cw)) ((elig now pool).map (·.weight)) ∧
+    (elig now (wrrBump pool now)).map (·.weight) = (elig now pool).map (·.weight) := by
+  induction pool with
+  | nil => simp [elig, wrrBump, bump]
+  | cons b bs ih =>
+    simp only [elig, wrrBump, List.map_cons] at ih ⊢
+    by_cases hb : b.eligible now = true
+    · simp only [hb, if_true, List.filter_cons, eligible_cw, List.map_cons, bump]
+      exact ⟨by rw [ih.1], by rw [ih.2]⟩
+    · simp only [hb, Bool.false_eq_true, if_false, List.filter_cons]
+      exact ih
+
+theorem wrrTotal_elig (pool : List Backend) (now : Nat) :
+    (wrrTotal pool now : Int) = total ((elig now pool).map (·.weight)) := by
+  simp only [wrrTotal, total, elig]
+  congr 1
+  have : ∀ (l : List Backend) (a : Nat), l.foldl (fun a b => a + b.weight) a = (l.map (·.weight)).foldl (· + ·) a := by
+    intro l; induction l with
+    | nil => intro a; rfl
+    | cons x xs ih => intro a; simp only [List.foldl_cons, List.map_cons]; exact ih _
+  exact this _ 0
+
+/-- the scan over the whole pool and the scan over the eligible sub-list find the same maximum;
+the pool index found is eligible and its rank among the eligible backends is the sub-list index -/
+theorem best_elig (now : Nat) : ∀ (l : List Backend) (i i' : Nat) (acc acc' : Option (Nat × Int)),
+    (acc = none ∧ acc' = none ∨ ∃ j j' m, acc = some (j, m) ∧ acc' = some (j', m)) →
+    (wrrBest now l i acc = none ∧ best ((elig now l).map (·.cw)) i' acc' = none) ∨
+    (∃ fi ki m, wrrBest now l i acc = some (fi, m) ∧ best ((elig now l).map (·.cw)) i' acc' = some (ki, m) ∧
+      ((∃ m0, acc = some (fi, m0) ∧ acc' = some (ki, m0) ∧ m0 = m) ∨
+       (i ≤ fi ∧ i' ≤ ki ∧ (∃ b, l[fi - i]? = some b ∧ b.eligible now = true) ∧ ki - i' = rank now l (fi - i))))
+  | [], i, i', acc, acc', hrel => by
+    rcases hrel with ⟨rfl, rfl⟩ | ⟨j, j', m, rfl, rfl⟩
+    · left; simp [wrrBest, best, elig]
+    · right; exact ⟨j, j', m, by simp [wrrBest], by simp [best, elig], Or.inl ⟨m, rfl, rfl, rfl⟩⟩
+  | b :: bs, i, i', acc, acc', hrel => by
+    -- shifting an index found in the tail by one position of the head
+    have shift : ∀ (fi ki : Nat) (e : Bool), b.eligible now = e →
+        i + 1 ≤ fi → (i' + (if e then 1 else 0)) ≤ ki →
+        (∃ x, bs[fi - (i + 1)]? = some x ∧ x.eligible now = true) →
+        ki - (i' + (if e then 1 else 0)) = rank now bs (fi - (i + 1)) →
+        i ≤ fi ∧ i' ≤ ki ∧ (∃ x, (b :: bs)[fi - i]? = some x ∧ x.eligible now = true) ∧ ki - i' = rank now (b :: bs) (fi - i) := by
+      intro fi ki e he h1 h2 h3 h4
+      have hfi : fi - i = (fi - (i + 1)) + 1 := by omega
+      refine ⟨by omega, by cases e <;> simp at h2 <;> omega, ?_, ?_⟩
+      · rw [hfi, List.getElem?_cons_succ]; exact h3
+      · rw [hfi]
+        simp only [rank, elig, List.take_succ_cons, List.filter_cons, he]
+        cases e with
+        | true => simp only [if_true, List.length_cons] at h2 h4 ⊢; simp only [rank, elig] at h4; omega
+        | false => simp only [Bool.false_eq_true, if_false, Nat.add_zero] at h2 h4 ⊢; simp only [rank, elig] at h4; omega
+    by_cases hb : b.eligible now = true
+    · -- the head takes part in both scans
+      have hel : (elig now (b :: bs)).map (·.cw) = b.cw :: (elig now bs).map (·.cw) := by
+        simp [elig, List.filter_cons, hb]
+      rw [hel]
+      rcases hrel with ⟨rfl, rfl⟩ | ⟨j, j', m, rfl, rfl⟩
+      · simp only [wrrBest, hb, if_true, best]
+        have ih := best_elig now bs (i + 1) (i' + 1) (some (i, b.cw)) (some (i', b.cw)) (Or.inr ⟨i, i', b.cw, rfl, rfl⟩)
+        rcases ih with ⟨h1, _⟩ | ⟨fi, ki, m, h1, h2, h3⟩
+        · exfalso
+          have := best_none _ _ _ (by
+            have : best ((elig now bs).map (·.cw)) (i' + 1) (some (i', b.cw)) = none := by
+              rcases best_elig now bs (i + 1) (i' + 1) (some (i, b.cw)) (some (i', b.cw)) (Or.inr ⟨i, i', b.cw, rfl, rfl⟩) with ⟨_, h⟩ | ⟨_, _, _, hx, _, _⟩
+              · exact h
+              · rw [h1] at hx; cases hx
+            exact this)
+          cases this.2
+        · right
+          refine ⟨fi, ki, m, h1, h2, Or.inr ?_⟩
+          rcases h3 with ⟨m0, e1, e2, _⟩ | ⟨g1, g2, g3, g4⟩
+          · -- the head itself
+            simp only [Option.some.injEq, Prod.mk.injEq] at e1 e2
+            obtain ⟨rfl, _⟩ := e1
+            obtain ⟨rfl, _⟩ := e2
+            refine ⟨Nat.le_refl _, Nat.le_refl _, ⟨b, by simp, hb⟩, by simp [rank, elig]⟩
+          · exact shift fi ki true hb g1 (by simpa using g2) g3 (by simpa using g4)
+      · simp only [wrrBest, hb, if_true, best]
+        by_cases hlt : m < b.cw
+        · simp only [hlt, if_true]
+          have ih := best_elig now bs (i + 1) (i' + 1) (some (i, b.cw)) (some (i', b.cw)) (Or.inr ⟨i, i', b.cw, rfl, rfl⟩)
+          rcases ih with ⟨h1, h2⟩ | ⟨fi, ki, m', h1, h2, h3⟩
+          · exfalso; have := best_none _ _ _ h2; cases this.2
+          · right
+            refine ⟨fi, ki, m', h1, h2, Or.inr ?_⟩
+            rcases h3 with ⟨m0, e1, e2, _⟩ | ⟨g1, g2, g3, g4⟩
+            · simp only [Option.some.injEq, Prod.mk.injEq] at e1 e2
+              obtain ⟨rfl, _⟩ := e1
+              obtain ⟨rfl, _⟩ := e2
+              refine ⟨Nat.le_refl _, Nat.le_refl _, ⟨b, by simp, hb⟩, by simp [rank, elig]⟩
+            · exact shift fi ki true hb g1 (by simpa using g2) g3 (by simpa using g4)
+        · simp only [hlt, if_false]
+          have ih := best_elig now bs (i + 1) (i' + 1) (some (j, m)) (some (j', m)) (Or.inr ⟨j, j', m, rfl, rfl⟩)
+          rcases ih with ⟨h1, h2⟩ | ⟨fi, ki, m', h1, h2, h3⟩
+          · exfalso; have := best_none _ _ _ h2; cases this.2
+          · right
+            refine ⟨fi, ki, m', h1, h2, ?_⟩
+            rcases h3 with ⟨m0, e1, e2, e3⟩ | ⟨g1, g2, g3, g4⟩
+            · exact Or.inl ⟨m0, e1, e2, e3⟩
+            · exact Or.inr (shift fi ki true hb g1 (by simpa using g2) g3 (by simpa using g4))
+    · -- the head is skipped by both
+      have hbf : b.eligible now = false := by simpa using hb
+      have hel : (elig now (b :: bs)).map (·.cw) = (elig now bs).map (·.cw) := by
+        simp [elig, List.filter_cons, hbf]
+      rw [hel]
+      simp only [wrrBest, hbf, Bool.false_eq_true, if_false]
+      have ih := best_elig now bs (i + 1) i' acc acc' hrel
+      rcases ih with h | ⟨fi, ki, m, h1, h2, h3⟩
+      · exact Or.inl h
+      · right
+        refine ⟨fi, ki, m, h1, h2, ?_⟩
+        rcases h3 with h3 | ⟨g1, g2, g3, g4⟩
+        · exact Or.inl h3
+        · exact Or.inr (shift fi ki false hbf g1 (by simpa using g2) g3 (by simpa using g4))
+
+theorem elig_modify (now : Nat) (d : Int) : ∀ (l : List Backend) (fi : Nat) (b : Backend),
+    l[fi]? = some b → b.eligible now = true →
+    (elig now (l.modify fi (fun b => { b with cw := b.cw - d }))).map (·.cw) =
+      ((elig now l).map (·.cw)).modify (rank now l fi) (fun c => c - d)
+  | [], _, _, h, _ => by simp at h
+  | x :: xs, 0, b, h, hb => by
+    simp only [List.getElem?_cons_zero, Option.some.injEq] at h
+    subst h
+    simp [elig, rank, List.filter_cons, hb, eligible_cw]
+  | x :: xs, fi + 1, b, h, hb => by
+    simp only [List.getElem?_cons_succ] at h
+    have ih := elig_modify now d xs fi b h hb
+    simp only [elig, rank] at ih ⊢
+    simp only [List.modify_succ_cons, List.take_succ_cons, List.filter_cons]
+    by_cases hx : x.eligible now = true
+    · simp only [hx, if_true, List.map_cons, List.length_cons, List.modify_succ_cons]
+      rw [ih]
+    · simp only [hx, Bool.false_eq_true, if_false]
+      exact ih
+
+theorem rank_bump (pool : List Backend) (now n : Nat) : rank now (wrrBump pool now) n = rank now pool n := by
+  simp only [rank, elig, wrrBump, ← List.map_take]
+  rw [List.filter_map, List.length_map]
+  congr 1
+  apply List.filter_congr
+  intro b _
+  simp only [Function.comp]
+  split <;> rfl
+
+/-- **Refinement, general.** One `NextBackend` of the weighted strategy acts on the eligible
+sub-list exactly like the abstract smooth-WRR step: the running weights of the eligible
+backends afterwards are the abstract step's, and the backend picked is eligible and is the
+abstract pick counted among the eligible ones. Ineligible backends are skipped by bump, scan
+and total alike. With `wrr_exact / wrr_window / wrr_drift` this gives the weighted clauses for
+every stable set of eligible backends inside any pool. -/
+theorem core_refines_elig (pool : List Backend) (now : Nat) :
+    (elig now (wrrPickCore pool now).1).map (·.cw) =
+      (step ((elig now pool).map (·.weight)) ((elig now pool).map (·.cw))).1 ∧
+    (match (wrrPickCore pool now).2, (step ((elig now pool).map (·.weight)) ((elig now pool).map (·.cw))).2 with
+     | none, none => True
+     | some fi, some ki => (∃ b, pool[fi]? = some b ∧ b.eligible now = true) ∧ ki = rank now pool fi
+     | _, _ => False) := by
+  have hb := elig_bump pool now
+  have hbest := best_elig now (wrrBump pool now) 0 0 none none (Or.inl ⟨rfl, rfl⟩)
+  rw [hb.1] at hbest
+  simp only [wrrPickCore, step]
+  rcases hbest with ⟨h1, h2⟩ | ⟨fi, ki, m, h1, h2, h3⟩
+  · simp only [h1, h2]
+    exact ⟨hb.1, trivial⟩
+  · simp only [h1, h2]
+    rcases h3 with ⟨m0, e1, _, _⟩ | ⟨_, _, ⟨b, hbi, hbe⟩, hrank⟩
+    · cases e1
+    · simp only [Nat.sub_zero] at hbi hrank
+      refine ⟨?_, ?_, ?_⟩
+      · rw [elig_modify now _ (wrrBump pool now) fi b hbi hbe, hb.1, wrrTotal_elig, ← hrank]
+      · -- the slot of the original pool holds a backend with the same eligibility
+        simp only [wrrBump, List.getElem?_map] at hbi
+        cases hp : pool[fi]? with
+        | none => simp [hp] at hbi
+        | some b0 =>
+          simp only [hp, Option.map_some, Option.some.injEq] at hbi
+          refine ⟨b0, rfl, ?_⟩
+          rw [← hbi] at hbe
+          split at hbe
+          · rename_i he; exact he
+          · exact hbe
+      · rw [hrank, rank_bump]
+
+/-- **Histories.** When the set of candidates differs from the one of the previous pick (a
+backend was added, removed, ejected or came back), `NextBackend` first restarts every running
+weight from zero: the eligible sub-list is a fresh pool again, so `wrr_exact`, `wrr_window` and
+`wrr_drift` apply from that pick on, whatever the history before it. -/
+theorem reset_fresh (pool : List Backend) (ids lastEl : List Nat) (now : Nat)
+    (hchg : eligibleIds pool ids now ≠ lastEl) :
+    (elig now (wrrReset pool ids lastEl now)).map (·.cw) = List.replicate (elig now pool).length 0 ∧
+    (elig now (wrrReset pool ids lastEl now)).map (·.weight) = (elig now pool).map (·.weight) := by
+  simp only [wrrReset, hchg, if_false, elig]
+  rw [List.filter_map]
+  have hf : (List.filter ((fun b : Backend => b.eligible now) ∘ fun b => { b with cw := 0 }) pool) =
+      List.filter (fun b => b.eligible now) pool := by
+    apply List.filter_congr; intro b _; rfl
+  rw [hf]
+  constructor
+  · simp only [List.map_map]
+    apply List.ext_getElem?
+    intro n
+    simp only [List.getElem?_map, List.getElem?_replicate]
+    cases h : (List.filter (fun b => b.eligible now) pool)[n]? with
+    | none =>
+      have := List.getElem?_eq_none_iff.mp h
+      simp only [Option.map_none]
+      rw [if_neg (by omega)]
+    | some b =>
+      have := (List.getElem?_eq_some_iff.mp h).1
+      simp only [Option.map_some, Function.comp]
+      rw [if_pos this]
+  · simp only [List.map_map]; rfl
+
+/-- and without a change nothing is reset -/
+theorem reset_same (pool : List Backend) (ids lastEl : List Nat) (now : Nat)
+    (hsame : eligibleIds pool ids now = lastEl) : wrrReset pool ids lastEl now = pool := by
+  simp [wrrReset, hsame]
 
 end Helios.LB
